@@ -42,6 +42,7 @@ func (c11) Gen(r *rand.Rand, tier string, run int) *core.Case {
 	c.Net.ReadMode = []string{"greedy", "greedy", "random"}[br.IntN(3)]
 	c.Net.EOFData = []int{0, 50}[br.IntN(2)]
 	c.Net.Abortive = []int{0, 30}[br.IntN(2)]
+	c.Net.LateWrite = br.IntN(2) == 0
 	c.Params["scenario"] = block % 4
 	c.Params["tape_seed"] = int(br.Uint64() >> 33)
 	c.Params["block"] = block
